@@ -37,6 +37,12 @@ void trace_fd(int fd);
 // data.ptr points into it is a stale kernel-side reference -> rt::fail, the event is dropped.
 void mark_dead(const void* p, size_t n);
 
+// Scenario hook, called by epoll_wait for every event whose data.ptr is non-null and not in a dead
+// range: return true to DROP the event (the hook reports its own rt::fail); the registration is
+// then removed as well.  Used to turn "the library would now call a null function pointer" into a
+// monitor message instead of a crash of the harness.  nullptr = no hook.
+void set_event_filter(bool (*f)(void* data_ptr));
+
 // live epoll registrations (shadow table) whose data.ptr points into [p, p+n) / that are for fd
 int registrations_into(const void* p, size_t n);
 int registrations_of_fd(int fd);
